@@ -14,6 +14,9 @@ CONSTANTS
   FixNullRequired = TRUE
   HasValidator = TRUE
   NilPointerSkipsValidation = TRUE
+  CtxChoices = {"live"}
+  GateChoices = {FALSE}
+  SilentOnCtx = {}
 INIT TableInit
 NEXT TableNextQuiet
 VIEW fullview
